@@ -13,6 +13,7 @@
 package versionchain
 
 import (
+	"encoding/json"
 	"fmt"
 	"math/big"
 
@@ -50,6 +51,111 @@ type fixtureT struct {
 	names   map[common.Hash]string
 	order   []string
 	parent  map[string]string
+	builder *core.BlockChain
+	bdb     youdb.Database
+	nprobe  int
+}
+
+type critSignal struct{ msg string }
+
+// pureVerify calls the REAL core.VerifyYouVersionState (the pure verifier): "ok", "reject", "crit".
+func pureVerify(prev, curr *types.Header) (verdict string) {
+	defer func() {
+		if r := recover(); r != nil {
+			if _, ok := r.(critSignal); ok {
+				verdict = "crit"
+				return
+			}
+			panic(r)
+		}
+	}()
+	if err := core.VerifyYouVersionState(prev, curr); err != nil {
+		return "reject"
+	}
+	return "ok"
+}
+
+// pureFirstRejected: index of the first header of the segment the pure verifier rejects along the segment's REAL parent
+// chain, -1 none, -2 the real parent is not known to the chain under test.
+func (fx *fixtureT) pureFirstRejected(bc *core.BlockChain, seg []string) int {
+	first := fx.blocks[seg[0]]
+	if bc.GetHeader(first.ParentHash(), first.NumberU64()-1) == nil {
+		return -2
+	}
+	prev := fx.blocks[fx.parent[seg[0]]].Header()
+	for i, n := range seg {
+		h := fx.blocks[n].Header()
+		if pureVerify(prev, h) != "ok" {
+			return i
+		}
+		prev = h
+	}
+	return -1
+}
+
+// versionFailureIndex parses "VerifyYouVersionState failed, index=%d ..." (-1: the import did not fail for its version state).
+func versionFailureIndex(err error) int {
+	if err == nil {
+		return -1
+	}
+	var i int
+	if _, e := fmt.Sscanf(err.Error(), "VerifyYouVersionState failed, index=%d", &i); e == nil {
+		return i
+	}
+	return -1
+}
+
+// buildOn builds a real block without transactions on top of `parent` with the given version fields.
+func (fx *fixtureT) buildOn(parent *types.Block, extra string, v [5]uint64) (*types.Block, error) {
+	hdr := &types.Header{ParentHash: parent.Hash(), Number: new(big.Int).Add(parent.Number(), big.NewInt(1)), Time: parent.Time() + 10,
+		Coinbase: common.Address{0xc0}, GasLimit: core.CalcGasLimit(parent), GasRewards: big.NewInt(0), Subsidy: big.NewInt(0), Extra: []byte(extra)}
+	hdr.CurrVersion, hdr.NextVersion = params.YouVersion(v[0]), params.YouVersion(v[1])
+	hdr.NextApprovals, hdr.NextVoteBefore, hdr.NextSwitchOn = v[2], v[3], v[4]
+	sdb, err := fx.builder.StateAt(parent.Root(), parent.ValRoot(), parent.StakingRoot())
+	if err != nil {
+		return nil, err
+	}
+	return fx.builder.Engine().FinalizeAndAssemble(fx.builder, hdr, sdb, nil, nil)
+}
+
+// probe: every candidate header (chosen by TLC) as a real single-block segment on top of block p of a fresh chain; records
+// which ones the real pure verifier accepts and which ones InsertChain accepts.
+func (fx *fixtureT) probe(env *drive.Env, p string, cands [][5]uint64) error {
+	db := youdb.NewMemDatabase()
+	fx.genesis.MustCommit(db)
+	bc, err := newChain(db)
+	if err != nil {
+		return err
+	}
+	defer bc.Stop()
+	var path types.Blocks
+	for n := p; n != "G"; n = fx.parent[n] {
+		path = append(types.Blocks{fx.blocks[n]}, path...)
+	}
+	if len(path) > 0 {
+		if err := bc.InsertChain(path); err != nil {
+			return fmt.Errorf("probe parent %s cannot be imported: %v", p, err)
+		}
+	}
+	parent := fx.blocks[p]
+	pure, imp := []int{}, []int{}
+	for i, c := range cands {
+		fx.nprobe++
+		z, err := fx.buildOn(parent, fmt.Sprintf("Z%d", fx.nprobe), c)
+		if err != nil {
+			return err
+		}
+		if pureVerify(parent.Header(), z.Header()) == "ok" {
+			pure = append(pure, i)
+		}
+		if err := bc.InsertChain(types.Blocks{z}); err == nil {
+			imp = append(imp, i)
+		} else if versionFailureIndex(err) < 0 {
+			return fmt.Errorf("probe %v on %s failed for another reason: %v", c, p, err)
+		}
+	}
+	env.Emit(map[string]interface{}{"ev": "probe", "p": p, "pn": parent.NumberU64(), "pv": vt(parent.Header()), "cands": cands, "pure": pure, "imp": imp})
+	return nil
 }
 
 func (fx *fixtureT) name(h common.Hash) string {
@@ -117,12 +223,15 @@ func buildFixture() (*fixtureT, error) {
 		{"A4", "A3", idle6}, {"A5", "A4", idle6}, {"A6", "A5", idle6},
 		{"B1", "G", idle5}, {"B2", "B1", idle5}, {"B3", "B2", idle5}, {"B4", "B3", idle5}, {"B5", "B4", idle5}, {"B6", "B5", idle5},
 		{"C2", "B1", [5]uint64{5, 6, 2, 3, 4}}, {"C3", "C2", [5]uint64{5, 6, 2, 3, 4}}, {"C4", "C3", idle6}, {"C5", "C4", idle6}, {"C6", "C5", idle6},
+		// D: proposal, no approval, the fields COPIED across the window-closing round 3 (the pure verifier rejects D3), switch at 4
+		{"D1", "G", [5]uint64{5, 6, 1, 3, 4}}, {"D2", "D1", [5]uint64{5, 6, 1, 3, 4}}, {"D3", "D2", [5]uint64{5, 6, 1, 3, 4}},
+		{"D4", "D3", idle6}, {"D5", "D4", idle6}, {"D6", "D5", idle6},
 	} {
 		if err := build(s.name, s.parent, s.v); err != nil {
 			return nil, err
 		}
 	}
-	builder.Stop()
+	fx.builder, fx.bdb = builder, bdb
 	return fx, nil
 }
 
@@ -215,8 +324,35 @@ func run(env *drive.Env) error {
 		return fmt.Errorf("fixture: %v", err)
 	}
 	autoQuery := env.OptInt("autoquery", 1) == 1
-	var beh []Act
-	for env.Next(&beh) {
+	logging.Root().SetHandler(logging.FuncHandler(func(r *logging.Record) error {
+		if r.Lvl == logging.LvlCrit {
+			panic(critSignal{r.Msg})
+		}
+		return nil
+	}))
+	// a behaviour is a schedule [{"a":...}...] or a probe {"probe": parent, "cands": [[cv,nv,ap,vb,so]...]}
+	var raw json.RawMessage
+	for env.Next(&raw) {
+		var beh []Act
+		if len(raw) > 0 && raw[0] == '{' {
+			var pr struct {
+				Probe string      `json:"probe"`
+				Cands [][5]uint64 `json:"cands"`
+			}
+			if err := json.Unmarshal(raw, &pr); err != nil {
+				return err
+			}
+			env.Emit(fx.treeEvent())
+			if err := fx.probe(env, pr.Probe, pr.Cands); err != nil {
+				return err
+			}
+			raw = nil
+			continue
+		}
+		if err := json.Unmarshal(raw, &beh); err != nil {
+			return err
+		}
+		raw = nil
 		env.Emit(fx.treeEvent())
 		db := youdb.NewMemDatabase()
 		fx.genesis.MustCommit(db)
@@ -237,7 +373,9 @@ func run(env *drive.Env) error {
 					bs = append(bs, b)
 				}
 				ev["seg"] = a.Seg
-				ev["err"] = errClass(bc.InsertChain(bs))
+				ev["pure"] = fx.pureFirstRejected(bc, a.Seg)
+				ierr := bc.InsertChain(bs)
+				ev["err"], ev["vidx"] = errClass(ierr), versionFailureIndex(ierr)
 			case "sethead":
 				ev["k"] = a.N
 				if a.N < bc.CurrentBlock().NumberU64() {
@@ -258,7 +396,6 @@ func run(env *drive.Env) error {
 			}
 		}
 		bc.Stop()
-		beh = nil
 	}
 	return nil
 }
